@@ -352,6 +352,24 @@ impl<'tcx> Dumper<'tcx> {
 
     fn const_value(&mut self, val: ConstValue, t: Ty<'tcx>) -> J {
         let tcx = self.tcx;
+        // constants of struct / enum / tuple type: variant and fields (e.g. an associated const holding default options)
+        if matches!(t.kind(), ty::Adt(..) | ty::Tuple(..)) && !matches!(val, ConstValue::ZeroSized) {
+            if let ty::Adt(adt, _) = t.kind() {
+                if adt.is_union() {
+                    return J::Obj(vec![("ty", num(self.ty(t))), ("other", s("union const"))]);
+                }
+            }
+            if let Some(d) = tcx.try_destructure_mir_constant_for_user_output(val, t) {
+                let fields: Vec<J> = d.fields.iter().map(|(v, ft)| self.const_value(*v, *ft)).collect();
+                return J::Obj(vec![
+                    ("ty", num(self.ty(t))),
+                    ("adt_const", J::Obj(vec![
+                        ("variant", num(d.variant.map(|v| v.index()).unwrap_or(0))),
+                        ("fields", J::Arr(fields)),
+                    ])),
+                ]);
+            }
+        }
         match val {
             ConstValue::Scalar(Scalar::Int(si)) => self.scalar_bits(si, t),
             ConstValue::Scalar(Scalar::Ptr(ptr, _)) => {
